@@ -846,7 +846,16 @@ pub fn generate_with(prop: &str, o: &GenOpts, base_seed: u64, index: u64) -> Run
         threads.push(ops);
     }
     let pre = if rng.chance(o.pre_pct, 100) {
-        let mut p = gen_ops(&mut rng, o, len, false, huge_pct, huge_oneshot_pct);
+        // (sequential prefix: on a wrapped iterator also buffered / for_each / fold requests for
+        // "the rest", which panic by documentation - they allocate chunk_size slots)
+        let mut p = gen_ops(
+            &mut rng,
+            o,
+            len,
+            false,
+            if kind.known_size() { huge_pct } else { o.huge_iter_oneshot_pct },
+            huge_oneshot_pct,
+        );
         p.retain(|op| !matches!(op, Op::Stop));
         p
     } else {
